@@ -122,6 +122,10 @@ func toMapData(data any) map[string]any {
 	if m, ok := data.(map[string]any); ok {
 		return m
 	}
+	// Any other map with string keys (map[string]string, ...) holds variables just the same
+	if m, ok := reflect.StringKeyedMap(data); ok {
+		return m
+	}
 	// Try to convert struct to map using JSON tags
 	if m := reflect.StructToMap(data); len(m) > 0 {
 		return m
